@@ -129,7 +129,7 @@ func (c *Ctx) returnsUnhashableOnlyForUnhashableKinds(dt *core.DynTypes, f *ssa.
 			continue
 		}
 		checked++
-		if !hold[ret.Block()] {
+		if !hold[ret.Key()] {
 			return "the return at " + c.M.InstrPos(ret) + " may yield " + ts.String() + " although the argument's kind is not established as Slice, Map or Func on every path to it", false
 		}
 	}
@@ -470,7 +470,7 @@ func (c *Ctx) typeIDDelegate(named *types.Named) string {
 func (c *Ctx) forwardsOrHashable(dt *core.DynTypes, g *ssa.Function, resIdx int, fld string) string {
 	ei := core.ErrorResultIndex(g.Signature)
 	for _, ret := range core.ReturnsOf(g) {
-		if ei >= 0 && c.M.ProvablyNonNilError(core.RetVal(ret, ei), ret.Block()) {
+		if ei >= 0 && c.M.RetNonNil(ret, ei) {
 			continue
 		}
 		v := core.Unwrap(core.RetVal(ret, resIdx))
